@@ -1,7 +1,7 @@
 /-
 C18 — property theorems for the `allclose` decision model (`J2O.Model.C18`).
 
-Specification.  `Agrees cfg es gs`: the expected outputs `es` (what `fn` returned) and the
+Specification (definitions in Lemmas/C18.lean).  `Agrees cfg es gs`: the expected outputs `es` (what `fn` returned) and the
 outputs `gs` ONNX Runtime produced have the same count, and for every output i — after the
 layout handling the caller asked for and the exact (re,im) repack of a complex result — the
 shapes are equal and every element pair is `Close`:
@@ -12,7 +12,8 @@ No cast is applied in the specification.
 * `allclose_sound_partial`   match ∧ NoLossyCast ⇒ Agrees          (all inputs, all tolerances ≥ 0)
 * `allclose_sound_refuted`   the statement without `NoLossyCast` is FALSE  (witnesses replayed
                              on the real code: int64 = expected + 2³² against int32, float 5.7
-                             against int 5, int 2 against bool True, 1e300 against float32 inf)
+                             against int 5, int 2 against bool True, 1e300 against float32 inf,
+                             (2, inf) pair against complex nan+5j)
 * `agreesB_iff`              the executable specification the driver prints is `Agrees`
 * `mismatch_reported_partial` contrapositive form: ¬Agrees ∧ NoLossyCast ⇒ verdict ≠ match
 * `tmp_restores`, `x64_restored_allclose`, `x64_restored_to_onnx`, `x64_history_restored`:
@@ -85,6 +86,11 @@ def w3g : Tn := ⟨i32, [1], [El.ofRat 2]⟩
 def w4e : Tn := ⟨.flt f32, [1], [⟨.pinf, zero⟩]⟩
 def w4g : Tn := ⟨.flt f64, [1], [El.ofRat (10 ^ 300)]⟩
 
+/-- expected complex64 [nan+5j], model output float32 [[2, inf]] → match: the repack
+    `re + 1j*im` turns the real part into NaN when the imaginary part is infinite -/
+def w5e : Tn := ⟨.cplx f32, [1], [⟨.nan, .fin 5⟩]⟩
+def w5g : Tn := ⟨.flt f32, [1, 2], [El.ofRat 2, ⟨.pinf, zero⟩]⟩
+
 theorem w1_match : decideAll dflt [w1e] [w1g] = .isMatch ∧ agreesB dflt [w1e] [w1g] = false := by
   decide +kernel
 theorem w2_match : decideAll dflt [w2e] [w2g] = .isMatch ∧ agreesB dflt [w2e] [w2g] = false := by
@@ -92,6 +98,9 @@ theorem w2_match : decideAll dflt [w2e] [w2g] = .isMatch ∧ agreesB dflt [w2e] 
 theorem w3_match : decideAll dflt [w3e] [w3g] = .isMatch ∧ agreesB dflt [w3e] [w3g] = false := by
   decide +kernel
 theorem w4_match : decideAll dflt [w4e] [w4g] = .isMatch ∧ agreesB dflt [w4e] [w4g] = false := by
+  decide +kernel
+
+theorem w5_match : decideAll dflt [w5e] [w5g] = .isMatch ∧ agreesB dflt [w5e] [w5g] = false := by
   decide +kernel
 
 /-- **The full-strength soundness statement is refuted** (by the int64→int32 wrap witness; the
